@@ -518,10 +518,10 @@ func main() {
 		return
 	}
 	var cases []Case
-	for i := 0; i < r.Pick(120, 1200); i++ {
+	for i := 0; i < r.Pick(120, 600); i++ {
 		cases = append(cases, Case{Kind: "law", Stream: fmt.Sprintf("c03/law/%d", i)})
 	}
-	for i := 0; i < r.Pick(200, 4000); i++ {
+	for i := 0; i < r.Pick(200, 1500); i++ {
 		cases = append(cases, Case{Kind: "single", Stream: fmt.Sprintf("c03/single/%d", i)})
 	}
 	sizes := []int{0, 1, 2, 3, 8, 31, 32, 33, 63, 64, 65, 93, 94, 95, 127, 128, 129, 189, 190, 191, 255, 256, 257, 300, 379, 380, 381, 383, 384, 385}
@@ -529,17 +529,17 @@ func main() {
 	if !r.Quick {
 		big1 = []int{499, 500, 501, 799, 800, 801, 1000, 1023, 1024, 1025, 1500, 2047, 2048, 2049, 4097, 16385, 32767, 32768, 32770, 32771, 65539}
 	}
-	for rep := 0; rep < r.Pick(3, 20); rep++ {
+	for rep := 0; rep < r.Pick(3, 8); rep++ {
 		for _, s := range sizes {
 			cases = append(cases, Case{Kind: "msm", Stream: fmt.Sprintf("c03/msm/%d/%d", s, rep), Size: s})
 		}
 	}
-	for rep := 0; rep < r.Pick(1, 3); rep++ {
+	for rep := 0; rep < r.Pick(1, 1); rep++ {
 		for _, s := range big1 {
 			cases = append(cases, Case{Kind: "msm", Stream: fmt.Sprintf("c03/msm/%d/%d", s, rep), Size: s})
 		}
 	}
-	for i := 0; i < r.Pick(60, 800); i++ {
+	for i := 0; i < r.Pick(60, 300); i++ {
 		cases = append(cases, Case{Kind: "msm-unknown", Stream: fmt.Sprintf("c03/msmu/%d", i), Size: 1 + i%8})
 	}
 	r.Parallel(len(cases), func(i int) { runCase(r, cases[i], pool) })
